@@ -1769,8 +1769,12 @@ func c13Random(c *Case, rng *Rng) {
 }
 
 func runC13(r *Run) {
-	r.Rule = "a case = initial cluster (0-4 objects among 8 keys of 2 kinds x 2 namespaces x 2 names, plus an unregistered kind) " +
-		"+ a stream of 1-6 operation documents (3 create variants, 3 delete modes, merge/JSON/jq patches with subresource, " +
+	r.Rule = "a case = initial cluster (0-4 objects among 16 keys: ConfigMap, Deployment and a custom kind Widget served at two versions of its group " +
+		"(example.com/v1 preferred, example.com/v1alpha1: two resources, one object store each) x 2 namespaces x 2 names, plus an unregistered kind) " +
+		"+ 1-3 successive executions (55% one; each with its own patch file, all on the same cluster and the same ObjectPatcher, each judged on the state the " +
+		"documented semantics give for the ones before) - 30% of the cases are about the same (namespace, name) of the Widget at both versions, addressed " +
+		"within one stream and across executions (apiVersion explicit, or omitted = preferred version) - " +
+		"a patch file = a stream of 1-6 operation documents (3 create variants, 3 delete modes, merge/JSON/jq patches with subresource, " +
 		"ignoreMissingObject, payloads inline / JSON string / YAML string / undecodable string; Deployment payloads carry integer fields) " +
 		"that is valid (53%), has exactly one invalid document (24%: unknown operation, extra property, missing required field, wrong payload type, " +
 		"empty payload, non-string operation, a required field / non-empty string missing inside the first jsonPatch item), has an invalid document " +
@@ -1972,6 +1976,43 @@ func runC13(r *Run) {
 			{"CreateOrUpdate at v1, next execution: jq patch and delete at v1alpha1, third execution: jq patch at v1",
 				map[int]c13Obj{wa.id: {1: 5}},
 				[]c13Exec1{{docs: []c13Doc{cou(w1, c13Obj{2: 6})}}, {docs: []c13Doc{jq(wa, 3, 7), del(wa)}}, {docs: []c13Doc{jq(w1, 1, 8)}}}},
+		}
+		if r.Thorough() {
+			// exhaustive small scope: every sequence of 1-3 operations over {merge patch, jq patch, background
+			// delete, CreateOrUpdate} x {v1, v1alpha1} of one Widget, cut into successive executions in every
+			// possible way, on both initial states (both objects absent / present)
+			alphabet := []c13Doc{merge(w1, 1, 3), merge(wa, 1, 4), jq(w1, 2, 5), jq(wa, 2, 6), del(w1), del(wa), cou(w1, c13Obj{3: 7}), cou(wa, c13Obj{3: 8})}
+			A := len(alphabet)
+			type shape struct{ l, seq, cut int }
+			var shapes []shape
+			for l, p := 1, A; l <= 3; l, p = l+1, p*A {
+				for seq := 0; seq < p; seq++ {
+					for cut := 0; cut < 1<<(l-1); cut++ {
+						shapes = append(shapes, shape{l, seq, cut})
+					}
+				}
+			}
+			r.Cases(2000000, 2*len(shapes), 64, func(c *Case, rng *Rng) {
+				k := c.Idx - 2000000
+				present := k%2 == 1
+				sh := shapes[k/2]
+				var runs []c13Exec1
+				cur := c13Exec1{}
+				for i, q := 0, sh.seq; i < sh.l; i, q = i+1, q/A {
+					cur.docs = append(cur.docs, alphabet[q%A])
+					if i == sh.l-1 || sh.cut&(1<<i) != 0 {
+						runs = append(runs, cur)
+						cur = c13Exec1{}
+					}
+				}
+				init := map[int]c13Obj{}
+				if present {
+					init = map[int]c13Obj{w1.id: {1: 1}, wa.id: {1: 2}}
+				}
+				c.Nontrivial = sh.l >= 2
+				c13RunSeq(c, rng, init, c13InitTok(init), runs)
+			})
+			r.Extra["exhaustive_scope_two_versions"] = fmt.Sprintf("all %d ways to cut a sequence of 1-3 operations over an %d-symbol alphabet (merge / jq patch, delete, CreateOrUpdate x Widget at v1 / v1alpha1) into successive executions x (objects absent | present)", len(shapes), A)
 		}
 		for i, sq := range seqs {
 			sq := sq
